@@ -813,6 +813,13 @@ func c12(c *ctx) {
 	for k := 0; k < 2; k++ {
 		c12timerRace(c, k)
 	}
+	for v := 0; v < 3; v++ {
+		sz := 6 << 20
+		if c.thorough() {
+			sz = 40 << 20
+		}
+		c12bigBacklog(c, v, sz)
+	}
 	for k, v := range kinds {
 		c.o.stat("op_"+k, v)
 	}
